@@ -14,4 +14,10 @@ Section S.
   Lemma as_ptr_equiv v s :
     runm lib__MiniVec__as_ptr_ast [VObj v] s = lift_m (as_ptr cfg v) eptr_val s.
   Proof. unfold runm. evm. cbv [as_ptr bind ret lift_m vunit eptr_val]. sym. Qed.
+
+  (* MiniVec::new(): no operation on the world at all -- no allocation -- and the value returned is the
+     handle that points at the static sentinel byte (refused only for zero-sized element types) *)
+  Lemma new_equiv s :
+    runm lib__MiniVec__new_ast [] s = ((if 0 <? esz cfg then Norm (minivec_val Sentinel) else Panic), s).
+  Proof. unfold runm. evm. destruct (0 <? esz cfg); reflexivity. Qed.
 End S.
